@@ -18,8 +18,10 @@ struct FakeFd {
   size_t wcap = ~(size_t)0;   // device capacity for writes
   bool closed = false;
   int closes = 0;
-  // answer script per read()/write() call: 0 normal, 1 -> -1/EINTR, 2 -> -1/EIO, 3 -> 0 (EOF / nothing written)
+  // answer script per read()/write() call: 0 normal, 1 -> -1/EINTR, 2 -> -1/EIO, 3 -> 0 (EOF / nothing written),
+  // 4 -> short transfer of 1 byte, 5 -> short transfer of n-1 bytes (both only when more than one byte was asked for)
   std::vector<int> script;
+  size_t chunk = ~(size_t)0;  // no single call transfers more than this many bytes (a pipe / socket / tty may do that)
   size_t call = 0;
 };
 int fakefd_create(const uint8_t* data = nullptr, size_t n = 0);
